@@ -90,6 +90,10 @@ def gen_blocks_request(ch, cfg, ancestor=None, earlier=None):
                     continue
                 seen.add(h)
                 bros.append((h, b))
+            if bros and ch.draw(6, "bro.repeated") == 1:
+                # the same brother listed twice: the device is sent what the client listed (and says
+                # what it thinks of it), not a tidied-up list
+                bros.insert(ch.draw(len(bros) + 1, "bro.repeated.at"), bros[ch.draw(len(bros), "bro.repeated.which")])
             order = ch.draw(3, "bro.order")
             if order == 1:
                 bros.sort(key=lambda x: x[0])
